@@ -51,6 +51,7 @@ ASSUMPTIONS = ['keys of different types are never mixed in one list (Python '
                'batched runs are compared with the window of the unbatched '
                'run of the same configuration']
 CASE_CPU_SECONDS = 300.0
+CASE_CPU_SECONDS_QUICK = 120.0
 
 D = datetime.date
 DOMAINS = {
